@@ -407,6 +407,9 @@ SPECS["C17"] = ("""property C17: every access path agrees and index accounting n
   ("C17_tag_index_count_formula",
    "forall ops names, ops_wf ops -> let s := c_run ops (db_init names) in\n    length (t_tc (committed s))\n    = list_sum (map (fun io => match log_find (log s) (snd io) with\n                               | Some e => length (nodup bytes_eq_dec (keys_tc e))\n                               | None => 0%nat\n                               end) (t_i (committed s)))",
    "tag_index_count_formula", "the VALUE of the tag-table counters: in every reachable state the tag index holds, for every retrievable event, exactly one entry per DISTINCT key of the event (key = letter, value padded or cut to 182 bytes, time, id): repeated tags and values that collide after padding count once, nothing else is there. With C17_tag_index_counts_agree the same number is in the author-tag and kind-tag tables"),
+  ("C17_tag_index_count_in_padded_pairs",
+   "forall ops names, ops_wf ops -> let s := c_run ops (db_init names) in\n    length (t_tc (committed s))\n    = list_sum (map (fun io => match log_find (log s) (snd io) with\n                               | Some e => length (nodup lv_eq_dec (padded_pairs e))\n                               | None => 0%nat\n                               end) (t_i (committed s)))",
+   "tag_index_count_in_padded_pairs", "the same value in the terms of the property: the number of DISTINCT (letter, value padded or cut to 182 bytes) pairs among the indexable tags of every retrievable event - exactly the number the harness recomputes from the events it stored and compares with the three counters after every operation"),
   ("C17_query_paths_agree_with_id_index",
    "forall ops names f now allow_scraping allow_limit allow_seconds out red,\n    ops_wfe ops -> let s := c_run ops (db_init names) in\n    filter_ok f -> limit_exceeds_store s f ->\n    find_events s f all_match now allow_scraping allow_limit allow_seconds = Ok (out, red) ->\n    forall e, In e out <-> (get_event_by_id s (e_id e) = Ok (Some e) /\\ spec_matches f e = true)",
    "query_paths_agree_with_id_index", "every reachable state, every filter (32-byte authors, u16 kinds, one-letter tag names) whose limit does not truncate, whichever of the seven plans serves it (ids / author+kind / author+tag / kind+tag / tag / author / time window): the answer is exactly the events the id lookup returns that match - no access path serves an event another path denies"),
